@@ -59,8 +59,22 @@ func fieldKey(f map[string]any) string {
 	return b.String()
 }
 
+// capKeys are the fields that define a class for the 3-reports cap; the finer fields
+// (type, class, writer, n) stay in Fields for known-finding matching only.
+var capKeys = map[string]bool{"kind": true, "mode": true, "how": true, "form": true, "site": true, "decoder": true, "delivery": true, "limit": true}
+
+func coarse(f map[string]any) map[string]any {
+	m := map[string]any{}
+	for k, v := range f {
+		if capKeys[k] {
+			m[k] = v
+		}
+	}
+	return m
+}
+
 func (r *rep) viol(sub string, fields map[string]any, what string, witness any) {
-	cls := sub + "|" + fieldKey(fields)
+	cls := sub + "|" + fieldKey(coarse(fields))
 	r.mu.Lock()
 	r.n[cls]++
 	c := r.n[cls]
@@ -77,7 +91,7 @@ func (r *rep) viol(sub string, fields map[string]any, what string, witness any) 
 func (r *rep) seen(sub string, fields map[string]any) int {
 	r.mu.Lock()
 	defer r.mu.Unlock()
-	return r.n[sub+"|"+fieldKey(fields)]
+	return r.n[sub+"|"+fieldKey(coarse(fields))]
 }
 
 // ---------------------------------------------------------------------------
